@@ -490,8 +490,21 @@ def run_impl(tree):
                     pass
                 for pth in paths:
                     pth.unlink()
-            a = _canon(root, lambda: fs.find_closest(targ, filters=flt))
             fs2 = make_fileset(root, tree, q)
+            if tree["has_sat"] and len(out) % 3 != 2:
+                # history on the same object: the same question was asked before with ANOTHER value for the same filter
+                # key (a fresh dict each time) -- the answer to the query proper must be the function of its own filters
+                used = []
+                for v in (flt or {}).values():
+                    used += v if isinstance(v, list) else [v]
+                others = [x for x in SATS if x not in used] or SATS
+                for key in (list(flt) if flt else ["sat"]):
+                    for o, obj in enumerate((fs, fs2)):
+                        try:
+                            obj.find_closest(targ, filters={key: others[(len(out) + o) % len(others)]})
+                        except Exception:  # noqa
+                            pass
+            a = _canon(root, lambda: fs.find_closest(targ, filters=flt))
             b = _canon(root, (lambda: fs2[targ]) if flt is None else (lambda: fs2[targ, flt]))
             out.append({"find_closest": a, "getitem": b})
         return out, parsed
